@@ -225,6 +225,22 @@ def d_holds(d, op, l, r):
     return False
 
 
+def iter_cmp(d, hist=False):
+    """(lkey, op, rkey, fact) of every comparison in d, non-constant ones in
+    both orientations; with hist=True the remembered (history) facts instead."""
+    for f in d:
+        g = None
+        if not hist and f.kind == "cmp":
+            g = f
+        elif hist and f.kind == "hist":
+            g = f.fact
+        if g is None:
+            continue
+        yield g.key[0], g.op, g.key[2], g
+        if not isinstance(g.key[2], int):
+            yield g.key[2], FLIP[g.op], g.key[0], g
+
+
 def _op_implies(have, want):
     if have == want:
         return True
